@@ -294,12 +294,32 @@ func (g *gen) construct(kind string, nested bool) string {
 	case "stream-element":
 		return pick(r, "<stream:features/>", "<stream:foo>text</stream:foo>", "<features xmlns='"+sess.NSStream+"'><a/></features>", "<s:x xmlns:s='"+sess.NSStream+"'/>")
 	case "stream-error":
+		// the defined condition, any number of <text/> with xml:lang, an
+		// application-specific condition (RFC 6120 4.9.2) and unknown children,
+		// in every order
 		c := streamConds[r.Intn(len(streamConds))]
-		s := "<stream:error><" + c + " xmlns='" + nsStreamErr + "'/>"
-		if r.Intn(2) == 0 {
-			s += "<text xmlns='" + nsStreamErr + "'>bye</text>"
+		cond := "<" + c + " xmlns='" + nsStreamErr + "'/>"
+		if r.Intn(6) == 0 {
+			cond = "<see-other-host xmlns='" + nsStreamErr + "'>other.example.net:5222</see-other-host>"
 		}
-		return s + "</stream:error>"
+		if r.Intn(8) == 0 {
+			cond = "<" + c + " xmlns='" + nsStreamErr + "'>optional <b xmlns='urn:c08:x'>content</b></" + c + ">"
+		}
+		parts := []string{cond}
+		for i, m := 0, r.Intn(3); i < m; i++ {
+			parts = append(parts, "<text xmlns='"+nsStreamErr+"' xml:lang='"+pick(r, "en", "de", "x-klingon")+"'>"+pick(r, "bye", "Auf Wiedersehen &amp; tsch&#252;ss", "")+"</text>")
+		}
+		if r.Intn(2) == 0 {
+			parts = append(parts, pick(r,
+				"<escape-your-data xmlns='http://example.org/ns'/>",
+				"<escape-your-data xmlns='http://example.org/ns'>some <i>nested</i> detail</escape-your-data>",
+				"<app:too-many-kittens xmlns:app='urn:c08:app' count='9'><app:kitten/><app:kitten/></app:too-many-kittens>"))
+		}
+		if r.Intn(4) == 0 {
+			parts = append(parts, pick(r, "<unknown xmlns='urn:c08:x'><text xmlns='"+nsStreamErr+"'>not the text</text></unknown>", "<text xmlns='urn:c08:x'>foreign text</text>", " \n "))
+		}
+		r.Shuffle(len(parts), func(i, j int) { parts[i], parts[j] = parts[j], parts[i] })
+		return "<stream:error>" + strings.Join(parts, "") + "</stream:error>"
 	case "restart":
 		s := "<stream:stream xmlns='" + g.o.NS() + "' xmlns:stream='" + sess.NSStream + "' version='1.0'>"
 		if nested {
@@ -531,10 +551,12 @@ type refElem struct {
 }
 
 type reference struct {
-	Elems  []*refElem
-	Term   string // closing | stream-error | restart | stream-element | comment | procinst | directive | text | malformed | eof
-	Nested bool
-	Cond   string // stream error condition
+	Elems   []*refElem
+	Term    string // closing | stream-error | restart | stream-element | comment | procinst | directive | text | malformed | eof
+	Nested  bool
+	Cond    string // stream error condition
+	AppCond bool   // the stream error has a child outside the stream error namespace
+	Texts   int    // number of <text/> children
 }
 
 func isWS(b []byte) bool { return len(bytes.Trim(b, " \t\r\n")) == 0 }
@@ -591,6 +613,12 @@ func parseRef(header, input string) *reference {
 						case xml.StartElement:
 							if dd == 1 && x.Name.Space == nsStreamErr && x.Name.Local != "text" {
 								ref.Cond = x.Name.Local
+							}
+							if dd == 1 && x.Name.Space != nsStreamErr {
+								ref.AppCond = true
+							}
+							if dd == 1 && x.Name.Space == nsStreamErr && x.Name.Local == "text" {
+								ref.Texts++
 							}
 							dd++
 						case xml.EndElement:
@@ -1304,6 +1332,12 @@ func Run(c *core.Case, sc Scenario) {
 		}
 	case ref.Term == "stream-error" && !ref.Nested:
 		c.Count("outcome_stream_error", 1)
+		if ref.AppCond {
+			c.Count("outcome_stream_error_with_foreign_child", 1)
+		}
+		if ref.Texts > 1 {
+			c.Count("outcome_stream_error_with_several_texts", 1)
+		}
 		var se stream.Error
 		if !errors.As(serveErr, &se) || se.Err != ref.Cond {
 			c.Violate("elem:outcome:stream-error", "the peer sent the stream error %q, Serve returned %v (%T)", ref.Cond, serveErr, serveErr)
@@ -1420,6 +1454,7 @@ func Prop() *core.Prop {
 			"invocations", "stanzas_dispatched", "non_stanzas_dispatched", "from_blanked_expected", "non_stanza_with_own_from",
 			"elements_read_to_eof", "elements_partly_read", "elements_not_read", "reads_after_eof", "reads_after_error",
 			"nested_construct_surfaced_as_read_error", "chunked_streams",
+			"outcome_stream_error_with_foreign_child", "outcome_stream_error_with_several_texts",
 			"handler_returned_bare_eof", "bare_eof_with_element_partly_unread", "session_carried_on_after_handler_eof",
 			"app_close_before", "app_close_in-handler", "app_close_goroutine", "invocations_after_app_close",
 			"unfinished_element_with_write_after_app_close", "outcome_closing_tag_after_app_close",
